@@ -37,7 +37,7 @@ EXPLANATION = (
 ASSUMPTIONS = ["TSDataView::subscribe/unsubscribe are the only ways a target can reach a consumer (C03.a/b)",
                "TimeSeriesReference::operator== is identity of the designated output (time_series_reference.cpp)"]
 DECIDED = ["a selection operators", "c consumer blend", "d sampled bind", "e cross-boundary clamp (shared C09.b)", "f re-subscription on retarget",
-           "g refresh re-applies the reference", "h same-target de-dup and sampling mode", "j unsubscribe before a target handle is dropped", "k slot-id bounds of the keyed retarget delta", "m lazily cleared masks of the old target consulted for the transition cycle only"]
+           "g refresh re-applies the reference", "h same-target de-dup and sampling mode", "i role-ops rows and reference dispatch", "j unsubscribe before a target handle is dropped", "k slot-id bounds of the keyed retarget delta", "m lazily cleared masks of the old target consulted for the transition cycle only"]
 NOT_DECIDED = ["observed value/delta equals the target's at every tick", "keyed-shape old/new difference", "unselected targets never wake the consumer at run time"]
 
 
@@ -400,8 +400,71 @@ def check(run: Run) -> None:
             run.finding("C13.m", "previous_contains_published:gate-polarity", "the removed-mask scan is reachable when the old target did NOT tick in the transition cycle",
                         loc=fl.cfg.describe(w[-1][0]))
 
+    with run.obligation("C13.i", "K5+K1", "from-reference role table: row r (in TSEndpointRole order) holds only functions of role r, in the column order of "
+                        "FromRefRoleOps; applying a reference dispatches empty -> unbind, peered -> apply_peered_reference on the referenced output viewed "
+                        "at t, otherwise -> apply_non_peered_reference"):
+        ENDP = "include/hgraph/types/time_series/endpoint_schema.h"
+        roles_enum = [e for e in t.file(ENDP).enums if e.name == "TSEndpointRole"]
+        if not roles_enum:
+            raise AnalysisError("anchor-vanished", "TSEndpointRole")
+        role_tokens = [re.sub(r"(?<!^)([A-Z])", r"_\1", e).lower() for e in roles_enum[0].enumerators]  # Peered -> peered, NonPeered -> non_peered
+        sd = t.struct(ALT, "FromRefRoleOps")
+        cols = [f.name for f in sd.fields]
+        fa = R.fn(run, ALT, "from_ref_role_ops_for")
+        cn = R.aliases_of(fa)
+        tab = R.find(fa, lambda n: isinstance(n, C.Declarator) and n.name == "table")
+        if not tab or not isinstance(tab[0].init, C.Init):
+            raise AnalysisError("anchor-vanished", "from_ref_role_ops_for: table")
+        rows = tab[0].init.elems
+        while len(rows) == 1 and isinstance(rows[0], C.Init) and rows[0].elems and isinstance(rows[0].elems[0], C.Init):
+            rows = rows[0].elems
+        run.sites(len(rows), 3, "role rows")
+        if len(rows) != len(role_tokens):
+            run.finding("C13.i", "from_ref_role_ops_for:row-count", f"{len(rows)} rows for {len(role_tokens)} endpoint roles", loc=ALT)
+        for r, row in enumerate(rows[:len(role_tokens)]):
+            names = [cn(x).lstrip("&") for x in (row.elems if isinstance(row, C.Init) else [])]
+            if len(names) != len(cols):
+                run.finding("C13.i", f"from_ref_role_ops_for:row{r}:arity", f"row {r} has {len(names)} entries for {len(cols)} slots", loc=ALT)
+                continue
+            for c, nm in enumerate(names):
+                run.count(1, "C13.i.cell")
+                stripped = nm
+                # role of the function = which role token its name carries ("non_peered" before "peered")
+                carried = None
+                for tok in sorted(role_tokens, key=len, reverse=True):
+                    # the role names the TARGET: `..._to_<role>_from_ref_data`, `from_ref_<role>...`, `..._from_ref_<role>`
+                    if re.search(rf"(to_{tok}_from_ref|from_ref_{tok}(_|$))", nm):
+                        carried = tok
+                        break
+                col_tokens = [w for w in cols[c].split("_") if w not in ("matches",)]
+                col_ok = all(w in nm for w in col_tokens if w not in ("apply",)) and (("apply" in nm) == ("apply" in cols[c]))
+                if cols[c] == "apply_peered_reference":
+                    col_ok = col_ok and nm.startswith("apply_peered_reference_to_")
+                if cols[c] == "apply_non_peered_reference":
+                    col_ok = col_ok and nm.startswith("apply_non_peered_reference_to_")
+                if carried != role_tokens[r] or not col_ok:
+                    run.finding("C13.i", f"from_ref_role_ops_for:row{r}:{cols[c]}", f"slot `{cols[c]}` of the {role_tokens[r]} row is wired to `{nm}` "
+                                f"(role carried: {carried})", loc=ALT)
+        ret = [cn(x.e).replace(" ", "") for x in R.find(fa, lambda n: isinstance(n, C.Return))]
+        if ret != ["index<table.size()?table[index]:table[0]"] and ret != ["(index<table.size())?table[index]:table[0]"]:
+            run.finding("C13.i", "from_ref_role_ops_for:index", f"the row must be selected by the role index: {ret}", loc=ALT)
+        fa = R.fn(run, ALT, "apply_reference_to_from_ref_data")
+        rl = [Role("EMPTY", "bool", r"reference\.is_empty\(\)"), Role("PEERED", "bool", r"reference\.is_peered\(\)")]
+
+        def spec(v):
+            if v.b("EMPTY"):
+                return Expect(calls=[("UNBIND", ("plan", "target", "modified_time", False))])
+            if v.b("PEERED"):
+                return Expect(calls=[("PEER", ("plan", "target", r".*peered_reference_target\(reference\)\.view\(modified_time\)", "modified_time"))])
+            return Expect(calls=[("NONPEER", ("plan", "target", "reference", "modified_time"))])
+        R.k1(run, "C13.i", fa, rl, spec, role_calls={"UNBIND": r"plan\.ops->unbind", "PEER": r"plan\.ops->apply_peered_reference",
+                                                      "NONPEER": r"plan\.ops->apply_non_peered_reference"}, what="apply_reference_to_from_ref_data")
+
 
 VARIANTS = [
+    {"id": "i-owned-row-uses-peered-unbind", "expect": "C13.i", "edits": [{"file": ALT, "find": "                    &unbind_from_ref_owned,", "replace": "                    &unbind_from_ref_peered,"}]},
+    {"id": "i-peered-reference-applied-as-non-peered", "expect": "C13.i", "edits": [{"file": ALT, "find": "                    &apply_peered_reference_to_non_peered_from_ref_data,\n                    &apply_non_peered_reference_to_non_peered_from_ref_data,", "replace": "                    &apply_non_peered_reference_to_non_peered_from_ref_data,\n                    &apply_non_peered_reference_to_non_peered_from_ref_data,"}]},
+    {"id": "i-empty-reference-not-unbound", "expect": "C13.i", "edits": [{"file": ALT, "find": "            if (reference.is_empty())\n            {\n                plan.ops->unbind(plan, target, modified_time, false);\n                return;\n            }\n\n            if (reference.is_peered())\n            {\n                const auto &output", "replace": "            if (reference.is_empty())\n            {\n                return;\n            }\n\n            if (reference.is_peered())\n            {\n                const auto &output"}]},
     {"id": "m-revert-fix-stale-removed-mask", "expect": "C13.m", "edits": [{"file": "src/hgraph/types/time_series/ts_input/target_link_ops.cpp", "find": "            return state->slot_access->slot_published(previous, slot) && !added_in_transition &&\n                   !removed_earlier;", "replace": "            return state->slot_access->slot_published(previous, slot) && !added_in_transition;"}]},
     {"id": "m-removed-scan-ungated", "expect": "C13.m", "edits": [{"file": "src/hgraph/types/time_series/ts_input/target_link_ops.cpp", "find": "            if (!previous.modified(link->structural_transition_time())) { return false; }\n", "replace": ""}]},
     {"id": "k-previous-scan-bounded-by-size", "expect": "C13.k", "edits": [{"file": "src/hgraph/types/time_series/ts_input/target_link_ops.cpp", "find": "            const auto capacity = state->slot_access->slot_capacity(previous);", "replace": "            const auto capacity = state->slot_access->size(previous);"}]},
